@@ -666,3 +666,289 @@ contract(
     safety_props=["C18"],
     assumes=["PS7"],
 )
+
+# ---------------------------------------------------------------------------------------------- get_adapter_type
+#
+# Which values are edited element by element (C02/C11) and which are replaced as a whole: a registered constructor-call adapter
+# for the *exact class* first, then lists (any list subclass), *exact* tuples only (a namedtuple / tuple subclass must not be edited
+# as a plain tuple: its text is a constructor call), dicts; everything else is a leaf.
+
+
+def _p_adapter_for_type(I, args, kwargs, node):
+    I.ghost["for_type_of"] = args[0]
+    if I.ctx.branch(z3.Bool("has_registered_adapter")):
+        I.ghost["registered"] = True
+        return Obj("RegisteredCallAdapter", {})
+    I.ghost["registered"] = False
+    return None
+
+
+def _classref_is(I, r, name):
+    from pyvc.types import ClassRef
+    return isinstance(r, ClassRef) and r.name == name
+
+
+SPEC_NS["classref_is"] = _classref_is
+
+contract(
+    AD + ".get_adapter_type",
+    params={"value": "Val"},
+    callees={"inline_snapshot._adapter.generic_call_adapter.get_adapter_for_type": _p_adapter_for_type},
+    ghost={"vars": {"registered": "=False", "for_type_of": "=None"}},
+    returns=None,
+    result_name="ret",
+    ensures={
+        "registered-class-first [C02,C11,C01]": "implies(registered, cls_is(ret, 'RegisteredCallAdapter'))",
+        "containers-by-kind-leaves-otherwise [C02,C11,C01,C10]":
+            "implies(not registered, ite(isinst(value, 'list'), classref_is(ret, 'ListAdapter'), ite(type(value) is tuple, classref_is(ret, 'TupleAdapter'),"
+            " ite(isinst(value, 'dict'), classref_is(ret, 'DictAdapter'), classref_is(ret, 'ValueAdapter')))))",
+        "asks-for-the-class-of-the-value [C02]": "for_type_of is type(value)",
+    },
+    frame=[],
+    safety_props=["C18"],
+    assumes=["PS7"],
+)
+
+# ---------------------------------------------------------------------------------------------- used_externals
+#
+# C13: "a persisted file is removed only ... if no test file that took part in the session references it": the references of the
+# session are the union over *every* file with snapshots of the references found in its current text.  `used_in(text, x)`:
+# `used_externals_in(text)` contains x (ast.parse / ast.walk: not under contract); `text_of(f)`: content of file f (X5).
+
+FE = "inline_snapshot._find_external"
+USED_IN = z3.Function("used_in", sort_of(TXT), z3.StringSort(), z3.BoolSort())
+TEXT_OF = z3.Function("text_of_file", z3.StringSort(), sort_of(TXT))
+
+
+def _p_used_in(I, args, kwargs, node):
+    t = args[0]
+    from .files import _ginc
+    _ginc(I, "n_scanned")
+    x = z3.String(I.ctx.fresh_name("u"))
+    if not (isinstance(t, SV) and t.ty == TXT):
+        # not the text of a file: the references of that file are not what is collected
+        I.oblige("safety", "scans-the-text-of-each-file [C13]", z3.BoolVal(False))
+        return fresh_value(I.ctx, parse_ty("Set[Str]"), "refs")
+    return SSet(z3.Lambda([x], USED_IN(t.t, x)), STR)
+
+
+def _p_path_of(I, args, kwargs, node):
+    name = args[0]
+
+    def read_text(I2, enc=None):
+        return SV(TEXT_OF(pack(I2.ctx, name, STR)), TXT)
+
+    return Obj("pathlib.Path", {"read_text": read_text})
+
+
+def _member_of(s, x):
+    if isinstance(s, SSet):
+        return z3.Select(s.pred, x)
+    if isinstance(s, (set, frozenset)):
+        return z3.Or([x == z3.StringVal(e) for e in s]) if s else z3.BoolVal(False)
+    return None
+
+
+def s_has_refs_of_first(I, result, files, k):
+    """every reference found in files[0..k) is in result"""
+    x, j = z3.String(I.ctx.fresh_name("x")), z3.Int(I.ctx.fresh_name("j"))
+    m = _member_of(result, x)
+    if m is None:
+        return False
+    kk = k.t if isinstance(k, SV) else z3.IntVal(k)
+    return SV(z3.ForAll([x, j], z3.Implies(z3.And(0 <= j, j < kk, USED_IN(TEXT_OF(z3.Select(files.arr, j)), x)), m)), BOOL)
+
+
+def s_only_refs_of_first(I, result, files, k):
+    """everything in result is a reference found in one of files[0..k)"""
+    x, j = z3.String(I.ctx.fresh_name("x")), z3.Int(I.ctx.fresh_name("j"))
+    m = _member_of(result, x)
+    if m is None:
+        return False
+    kk = k.t if isinstance(k, SV) else z3.IntVal(k)
+    return SV(z3.ForAll([x], z3.Implies(m, z3.Exists([j], z3.And(0 <= j, j < kk, USED_IN(TEXT_OF(z3.Select(files.arr, j)), x))))), BOOL)
+
+
+SPEC_NS.update({"has_refs_of_first": s_has_refs_of_first, "only_refs_of_first": s_only_refs_of_first})
+SHAPES.update({"FState": Shape("inline_snapshot._global_state.State", {"files_with_snapshots": "Set[Str]"})})
+
+contract(
+    FE + ".used_externals",
+    params={},
+    globals_={"state": "@FState"},
+    callees={FE + ".used_externals_in": _p_used_in, "pathlib.Path": _p_path_of},
+    ghost={"vars": {"n_scanned": "=0"}, "locals": {"result": "Set[Str]"}},
+    loops={0: Loop(index="k", ghost_modifies=["n_scanned"], inv={
+        "references-of-the-files-seen-so-far": "has_refs_of_first(result, _iter0, k)",
+        "nothing-else": "only_refs_of_first(result, _iter0, k)",
+    })},
+    returns=None,
+    result_name="ret",
+    ensures={
+        # no file of the session is skipped: a reference in any of them protects the stored file from trim
+        "every-reference-of-every-file-of-the-session [C13,C04]": "has_refs_of_first(ret, _iter0, len(_iter0))",
+        "only-references-found-in-those-files [C13]": "only_refs_of_first(ret, _iter0, len(_iter0))",
+    },
+    frame=[],
+    safety_props=["C18"],
+    assumes=["X5"],
+)
+
+# ---------------------------------------------------------------------------------------------- DataclassAdapter / PydanticContainer / AttrAdapter .arguments
+#
+# C01/C02: "the text written ... makes that same comparison hold": a constructor argument may be left out of the generated call
+# only when the value the constructor would use instead - the field's default, or what its default factory returns - equals the
+# current value of the attribute.  Environment (third-party introspection, assumed): `fields(value)` / `model_fields.items()` /
+# `attrs.fields(type(value))` list the fields with `name`, `repr`, `default`, `default_factory`; `getattr(value, name)` is the
+# current attribute value `attr(value, name)`; calling a factory gives `made(factory)` (PS7: deterministic).
+
+GC = "inline_snapshot._adapter.generic_call_adapter"
+DF = Abs("DField")
+_ATTR = z3.Function("attr_of", sort_of(VAL), z3.StringSort(), sort_of(VAL))
+_MADE = z3.Function("made_by", sort_of(VAL), sort_of(VAL))
+declare_record("ArgRec", {"value": VAL, "is_default": BOOL})
+
+
+def _p_getattr(I, args, kwargs, node):
+    o, name = args[0], args[1]
+    if isinstance(o, SV) and o.ty == VAL:
+        return SV(_ATTR(o.t, pack(I.ctx, name, STR)), VAL)
+    if isinstance(o, SV) and o.ty == DF and name == "repr":
+        return I.V.abs_attr(I, o, "repr", node)
+    from pyvc.calls import b_getattr
+    return b_getattr(I, o, name, *args[2:])
+
+
+def _call_value(I, f, args, kwargs, node):
+    if f.ty == VAL and not args and not kwargs:
+        return SV(_MADE(f.t), VAL)
+    if f.ty == VAL:
+        # a factory that takes the instance (attrs `takes_self`): a function of factory and instance
+        g = z3.Function("made_by_with", sort_of(VAL), sort_of(VAL), sort_of(VAL))
+        return SV(g(f.t, val_term(I, args[0])), VAL)
+    raise RuntimeError("call of " + repr(f))
+
+
+def _p_argument(I, args, kwargs, node):
+    v = kwargs.get("value", args[0] if args else None)
+    d = kwargs.get("is_default", args[1] if len(args) > 1 else False)
+    if isinstance(d, SV) and d.ty != BOOL:
+        t = I.truth(d)  # the flag is only ever used for its truth value
+        d = t if isinstance(t, bool) else SV(t, BOOL)
+    I.ghost["arg_value"] = v
+    I.ghost["arg_default"] = d
+    from pyvc.interp import Obj as _O
+    return Obj("ArgRec", {"value": v, "is_default": d}, rec=parse_ty("ArgRec"))
+
+
+def _any_attr(I, sv, attr):
+    if sv.ty == VAL:
+        return SV(_ATTR(sv.t, z3.StringVal(attr)), VAL)
+    raise RuntimeError(f"attribute {attr} of {sv.ty}")
+
+
+def _p_fields(I, args, kwargs, node):
+    I.ghost["fields_of"] = args[0]
+    return fresh_value(I.ctx, parse_ty("List[DField]"), "fields")
+
+
+def s_attr(I, v, name):
+    return SV(_ATTR(val_term(I, v), pack(I.ctx, name, STR)), VAL)
+
+
+def s_made(I, f):
+    return SV(_MADE(val_term(I, f)), VAL)
+
+
+SPEC_NS.update({"attr": s_attr, "made": s_made, "ne": lambda I, a, b: SPEC_NS["user_cmp_hook"](I, "ne", a, b, None)})
+_FATTRS = {"DField.name": "Str", "DField.repr": "Bool", "DField.default": "Val", "DField.default_factory": "Val", "DField.init": "Bool"}
+_OMIT_OK = "implies(T(arg_default), T(eq(field.default, attr(value, field.name))) or T(eq(made(field.default_factory), attr(value, field.name))))"
+
+contract(
+    GC + ".DataclassAdapter.arguments",
+    params={"cls": "Opaque", "value": "Val"},
+    attrs=_FATTRS,
+    callees={"getattr": _p_getattr, "dataclasses.fields": _p_fields, "fields": _p_fields, GC + ".Argument": _p_argument, "Argument": _p_argument},
+    ghost={"vars": {"arg_value": "=None", "arg_default": "=None", "fields_of": "=None"}, "call_value_hook": _call_value, "abs_attr_default": _any_attr,
+           "locals": {"kwargs": "Dict[Str,ArgRec]"}, "names": {"MISSING": lambda I: SV(z3.Const("MISSING_sentinel", sort_of(VAL)), VAL)}},
+    loops={0: Loop(index="k", ghost_modifies=["arg_value", "arg_default"], inv={}, iter_post={
+        # what is stored for a shown field: the current attribute value, and "default" only when it equals the default / factory result
+        "stores-the-current-value [C01,C02]": "implies(field.repr, kwargs[field.name].value is arg_value and same(arg_value, attr(value, field.name)))",
+        "omitted-only-when-equal-to-the-default [C01,C02,C11]": "implies(field.repr, kwargs[field.name].is_default == T(arg_default) and " + _OMIT_OK + ")",
+    })},
+    returns=None,
+    result_name="ret",
+    ensures={"no-positional-arguments-and-the-fields-of-the-value [C01,C02]": "len(ret[0]) == 0 and fields_of is value"},
+    frame=[],
+    safety_props=["C18"],
+    assumes=["PS7"],
+)
+
+
+def _p_get_fields(I, args, kwargs, node):
+    """get_fields(value).items(): (name, field) pairs of the model"""
+    I.ghost["fields_of"] = args[0]
+    pairs = fresh_value(I.ctx, parse_ty("List[Tuple[Str,DField]]"), "model_fields")
+    return Obj("FieldTable", {"items": lambda I2: pairs})
+
+
+_OMIT_OK_P = "implies(T(arg_default), T(eq(field.default, attr(value, name))) or T(eq(made(field.default_factory), attr(value, name))))"
+
+contract(
+    GC + ".PydanticContainer.arguments",
+    params={"cls": "Opaque", "value": "Val"},
+    attrs=_FATTRS,
+    callees={"getattr": _p_getattr, GC + ".get_fields": _p_get_fields, "get_fields": _p_get_fields, GC + ".Argument": _p_argument, "Argument": _p_argument},
+    ghost={"vars": {"arg_value": "=None", "arg_default": "=None", "fields_of": "=None"}, "call_value_hook": _call_value, "abs_attr_default": _any_attr,
+           "locals": {"kwargs": "Dict[Str,ArgRec]"},
+           "names": {"PydanticUndefined": lambda I: SV(z3.Const("PydanticUndefined_sentinel", sort_of(VAL)), VAL)}},
+    loops={0: Loop(index="k", ghost_modifies=["arg_value", "arg_default"], inv={}, iter_post={
+        "stores-the-current-value [C01,C02]": "implies(field.repr, kwargs[name].value is arg_value and same(arg_value, attr(value, name)))",
+        # in particular: "never passed to the constructor" (model_fields_set) is no reason to leave a field out - a default list that
+        # was changed in place afterwards has to be written
+        "omitted-only-when-equal-to-the-default [C01,C02,C11]": "implies(field.repr, kwargs[name].is_default == T(arg_default) and " + _OMIT_OK_P + ")",
+    })},
+    returns=None,
+    result_name="ret",
+    ensures={"no-positional-arguments-and-the-fields-of-the-value [C01,C02]": "len(ret[0]) == 0 and fields_of is value"},
+    frame=[],
+    safety_props=["C18"],
+    assumes=["PS7"],
+)
+
+
+def _nt_setup(I, env):
+    I.ghost["nt_fields"] = fresh_value(I.ctx, parse_ty("List[Str]"), "_fields")
+    I.ghost["nt_defaults"] = fresh_value(I.ctx, parse_ty("Dict[Str,Val]"), "_field_defaults")
+
+
+def _nt_attr(I, sv, attr):
+    if sv.ty == VAL and attr == "_fields":
+        return I.ghost["nt_fields"]
+    if sv.ty == VAL and attr == "_field_defaults":
+        return I.ghost["nt_defaults"]
+    return _any_attr(I, sv, attr)
+
+
+_F = "nt_fields[j]"
+contract(
+    GC + ".NamedTupleAdapter.arguments",
+    params={"cls": "Opaque", "value": "Val"},
+    callees={"getattr": _p_getattr, GC + ".Argument": _p_argument, "Argument": _p_argument},
+    ghost={"vars": {"arg_value": "=None", "arg_default": "=None"}, "setup": _nt_setup, "abs_attr_default": _nt_attr},
+    requires={"field-names-are-distinct (enforced by namedtuple)": "all(all(nt_fields[i] != nt_fields[j] for j in range(i + 1, len(nt_fields))) for i in range(0, len(nt_fields)))"},
+    returns=None,
+    result_name="ret",
+    ensures={
+        # a field may be missing from the generated call only if the class has a default for it and the current value is not unequal to it
+        # (a required field - also one holding None - is always written)
+        "omitted-only-with-a-default-equal-to-the-value [C01,C02,C11]":
+            f"all(implies({_F} not in ret[1], {_F} in nt_defaults and not T(ne(attr(value, {_F}), nt_defaults[{_F}]))) for j in range(0, len(nt_fields)))",
+        "written-fields-carry-the-current-value [C01,C02]":
+            f"all(implies({_F} in ret[1], same(ret[1][{_F}].value, attr(value, {_F})) and not ret[1][{_F}].is_default) for j in range(0, len(nt_fields)))",
+        "no-positional-arguments [C01]": "len(ret[0]) == 0",
+    },
+    frame=[],
+    safety_props=["C18"],
+    assumes=["PS7"],
+)
